@@ -23,13 +23,19 @@ def rp(rng, fam):
 
 
 def gen_pair(rng):
-    fam = rng.choice(['ll', 'll-vert', 'll-horiz', 'quad', 'quad-linear-x', 'cubic', 'cubic-elevated', 'cubic-straight', 'cubic-arch', 'cubic-vline', 'cubic-hline', 'cubic-near-elevated', 'cubic-near-straight', 'quad-near-linear'])
+    fam = rng.choice(['ll', 'll-vert', 'll-horiz', 'll-stem-bar', 'quad', 'quad-linear-x', 'cubic', 'cubic-elevated', 'cubic-straight', 'cubic-arch', 'cubic-vline', 'cubic-hline', 'cubic-near-elevated', 'cubic-near-straight', 'quad-near-linear'])
     cf = rng.choice(['int', 'float'])
     def rline():
         return Line(rp(rng, cf), rp(rng, cf))
     if fam.startswith('ll'):
         a = rline()
-        if fam == 'll-vert':
+        if fam == 'll-stem-bar':
+            x = float(rng.randint(-200, 200)); y = float(rng.randint(-200, 200))
+            a = Line(P(x, y - rng.uniform(10, 300)), P(x, y + rng.uniform(10, 300)))
+            b = Line(P(x - rng.uniform(10, 300), y), P(x + rng.uniform(10, 300), y))
+            if rng.random() < 0.5: a = Line(a[1], a[0])
+            if rng.random() < 0.5: b = Line(b[1], b[0])
+        elif fam == 'll-vert':
             x = float(rng.randint(-200, 200)) if cf == 'int' else rng.uniform(-200, 200)
             b = Line(P(x, rng.uniform(-400, 400)), P(x, rng.uniform(-400, 400)))
         elif fam == 'll-horiz':
